@@ -428,7 +428,14 @@ def run_mutation(ctx, a, desc, b, pending, rng=None):
             ctx.hist("mut.outcome", "not-applicable:" + desc["m"])
             return
         ctx.evaluation()
-        _, _, ops = S.produce(conn, mdb, ct, cd, True)
+        try:
+            _, _, ops = S.produce(conn, mdb, ct, cd, True)
+        except Exception as e:
+            # a crash is the strongest form of not reporting the change
+            ctx.hist("mut.kind", desc["m"])
+            ctx.fail(inp, "missed: autogenerate raised %s: %s for change %s" % (type(e).__name__, str(e)[:200], desc["m"]),
+                     tags=["missed", "mut:" + desc["m"], "exc:" + type(e).__name__])
+            return
         ctx.hist("mut.kind", desc["m"])
         ctx.nontrivial((desc["m"], repr(S.normalise_order(ops))))
         pending.append((inp, {"tables": [t for t in order_b(b, mdb)["tables"]]}, ops))
